@@ -128,9 +128,10 @@ def _tag_added_on_both_sides(ev):
 def classify_valid(chk, ev, run_, clauses, info):
     if "UniqueCellIds" in clauses:
         strat = run_["name"].split("|")[1]
-        chk.violation("merged-invalid:duplicate-cell-id:%s" % "+".join(run_.get("dup_classes", ["?"])),
-                      "merged notebook declares 4.5 but has cells sharing one id (strategy %s)" % strat,
-                      mergefam.replay_obj(ev, run_, clauses, info))
+        for cls in run_.get("dup_classes", ["?"]):       # one report per class of duplicated id
+            chk.violation("merged-invalid:duplicate-cell-id:%s" % cls,
+                          "merged notebook declares 4.5 but has cells sharing one id (strategy %s)" % strat,
+                          mergefam.replay_obj(ev, run_, clauses, info))
     if "ValidNb" not in clauses:
         return
     rep = mergefam.replay_obj(ev, run_, clauses, info)
